@@ -36,6 +36,7 @@ def run(P: Program, R: Report, tier: str) -> None:
         "every edit path whose own structural effect joins or splits components carries a lineage update for the moved side",
         "a spliced-in node adopts the lineage of a node it is linked to; lineage ids are fresh or read in the current state",
     ]
+    R.decides += ['history shape and registration (shared R02.x); no wholesale replacement of a per-id entry and the neighbour contract; the lineage key is threaded into the annotator']
     R.not_decided += ["the iff over all node pairs; the bulk assignment; the downstream walk of the annotator beyond its gating"]
     A = ActionAnalysis(P, loop_iters=1 if tier == "quick" else 2)
     steps, roles, stats = steps_of(P, A)
